@@ -912,7 +912,7 @@ VARIANTS = [
     Variant("tab-expansion-unfenced-again", "FIRE", "main", "    source = _apply_layout_stage(functools.partial(str.expandtabs, tabsize=4), source)\n", "    source = source.expandtabs(4)\n", "R11.1"),
     Variant("trailing-blanks-unfenced-again", "FIRE", "main", "    source = fixes.fix_line_lengths(source, max_line_length=max_line_length)\n    source = _apply_layout_stage(rmspace.format_str, source)\n", "    source = fixes.fix_line_lengths(source, max_line_length=max_line_length)\n    source = rmspace.format_str(source)\n", "R11.1"),
     Variant("layout-helper-forgets-the-comparison", "FIRE", "main", "    new_source = stage(source)\n    if core.keeps_syntax_tree(source, new_source):\n        return new_source\n\n    return source\n", "    new_source = stage(source)\n    if new_source:\n        return new_source\n\n    return source\n", "R11.1"),
-    Variant("layout-helper-compares-the-input-with-itself", "FIRE", "main", "    if core.keeps_syntax_tree(source, new_source):\n        return new_source\n\n    return source\n\n\ndef format_code", "    if core.keeps_syntax_tree(source, source):\n        return new_source\n\n    return source\n\n\ndef format_code", "R11.1"),
+    Variant("layout-helper-compares-the-input-with-itself", "FIRE", "main", "    new_source = stage(source)\n    if core.keeps_syntax_tree(source, new_source):\n        return new_source\n", "    new_source = stage(source)\n    if core.keeps_syntax_tree(source, source):\n        return new_source\n", "R11.1"),
     Variant("blank-line-limit-returns-unchecked", "FIRE", "fixes", "    if core.keeps_syntax_tree(source, new_source):\n        return new_source\n\n    return source\n\n\n@processing.fix(max_iter=1)\ndef fix_line_lengths", "    return new_source\n\n\n@processing.fix(max_iter=1)\ndef fix_line_lengths", "R11.1"),
     Variant("comparison-of-lengths-instead-of-trees", "FIRE", "core", "    return new_root is not None and ast.dump(old_root) == ast.dump(new_root)\n", "    return new_root is not None and len(ast.dump(old_root)) == len(ast.dump(new_root))\n", "R11.1"),
     Variant("wrapped-statement-used-unchecked", "FIRE", "fixes", "            if not core.keeps_syntax_tree(\n                re.sub(elif_pattern, r\"\\g<1>\\g<3>\", original_code, 1),\n                re.sub(elif_pattern, r\"\\g<1>\\g<3>\", new_code, 1),\n            ):\n                continue\n\n", "", "R11.5"),
@@ -924,19 +924,19 @@ VARIANTS = [
     Variant("re-prefixed-spelling-stored-unchecked", "FIRE", "processing",
             "            if not (\n                core.is_valid_python(most_common_original_formatting)\n                and core.match_template(core.parse(most_common_original_formatting), template)\n            ):\n                continue\n", "", "R11.3"),
     Variant("literal-recogniser-back-to-the-ast-form", "FIRE", "processing",
-            "    string_token_types = {tokenize.STRING, getattr(tokenize, \"FSTRING_MIDDLE\", tokenize.STRING)}\n    try:\n        for token in tokenize.generate_tokens(io.StringIO(new_code).readline):\n            if token.type in string_token_types:\n                for lineno in range(token.start[0], token.end[0]):\n                    indents[lineno] = 0\n    except (tokenize.TokenError, SyntaxError):\n        pass  # new_code is not necessarily valid python syntax in all cases\n",
-            "    try:\n        new_code_ast = core.parse(new_code)\n    except SyntaxError:\n        pass\n    else:\n        for node in core.walk(new_code_ast, (ast.Constant(value=str), ast.JoinedStr)):\n            node_code = core.get_code(node, new_code)\n            if any(\n                node_code.startswith(prefix) and node_code.endswith(prefix[-3:])\n                for prefix in (\"b\'\'\'\", \"r\'\'\'\", \"f\'\'\'\", \"\'\'\'\", \'b\"\"\"\', \'r\"\"\"\', \'f\"\"\"\', \'\"\"\"\')\n            ):\n                for lineno in range(node.lineno, node.end_lineno):\n                    indents[lineno] = 0\n", "R11.2"),
+            "    string_token_types = {tokenize.STRING, getattr(tokenize, \"FSTRING_MIDDLE\", tokenize.STRING)}\n    ends_inside_string = set()\n    try:\n        for token in tokenize.generate_tokens(io.StringIO(new_code).readline):\n            if token.type in string_token_types:\n                for lineno in range(token.start[0], token.end[0]):\n                    indents[lineno] = 0\n                    ends_inside_string.add(lineno - 1)\n    except (tokenize.TokenError, SyntaxError):\n        pass  # new_code is not necessarily valid python syntax in all cases\n",
+            "    ends_inside_string = set()\n    try:\n        new_code_ast = core.parse(new_code)\n    except SyntaxError:\n        pass\n    else:\n        for node in core.walk(new_code_ast, (ast.Constant(value=str), ast.JoinedStr)):\n            node_code = core.get_code(node, new_code)\n            if any(\n                node_code.startswith(prefix) and node_code.endswith(prefix[-3:])\n                for prefix in (\"b\'\'\'\", \"r\'\'\'\", \"f\'\'\'\", \"\'\'\'\", \'b\"\"\"\', \'r\"\"\"\', \'f\"\"\"\', \'\"\"\"\')\n            ):\n                for lineno in range(node.lineno, node.end_lineno):\n                    indents[lineno] = 0\n", "R11.2"),
     Variant("literal-recogniser-forgets-fstring-tokens", "FIRE", "processing",
             "    string_token_types = {tokenize.STRING, getattr(tokenize, \"FSTRING_MIDDLE\", tokenize.STRING)}\n", "    string_token_types = {tokenize.STRING}\n", "R11.2"),
     Variant("literal-last-line-not-exempted", "FIRE", "processing",
             "                for lineno in range(token.start[0], token.end[0]):\n                    indents[lineno] = 0\n",
             "                for lineno in range(token.start[0] + 1, token.end[0]):\n                    indents[lineno - 1] = 0\n", "R11.2"),
     Variant("literal-lines-zero-based-loop", "SILENT", "processing",
-            "                for lineno in range(token.start[0], token.end[0]):\n                    indents[lineno] = 0\n",
-            "                for lineno in range(token.start[0] + 1, token.end[0] + 1):\n                    indents[lineno - 1] = 0\n"),
+            "                for lineno in range(token.start[0], token.end[0]):\n                    indents[lineno] = 0\n                    ends_inside_string.add(lineno - 1)\n",
+            "                for lineno in range(token.start[0] + 1, token.end[0] + 1):\n                    indents[lineno - 1] = 0\n                    ends_inside_string.add(lineno - 2)\n"),
     Variant("literal-every-multi-line-token-exempted", "SILENT", "processing",
-            "            if token.type in string_token_types:\n                for lineno in range(token.start[0], token.end[0]):\n                    indents[lineno] = 0\n",
-            "            for lineno in range(token.start[0], token.end[0]):\n                indents[lineno] = 0\n"),
+            "            if token.type in string_token_types:\n                for lineno in range(token.start[0], token.end[0]):\n                    indents[lineno] = 0\n                    ends_inside_string.add(lineno - 1)\n",
+            "            for lineno in range(token.start[0], token.end[0]):\n                indents[lineno] = 0\n                ends_inside_string.add(lineno - 1)\n"),
     Variant("new-whole-text-replace", "FIRE", "main", "    source = fixes.sort_imports(source)\n\n    source = fixes.fix_line_lengths", "    source = fixes.sort_imports(source)\n    source = source.replace(\"\\t\", \"    \")\n\n    source = fixes.fix_line_lengths", "R11.1", "str.replace"),
     Variant("new-regex-stage-in-helper", "FIRE", "fixes",
             "def fix_too_many_blank_lines(source: str) -> str:\n", "def _strip_form_feeds(source: str) -> str:\n    return re.sub(r\"\\f\", \"\", source)\n\n\ndef fix_too_many_blank_lines(source: str) -> str:\n    source = _strip_form_feeds(source)\n", "R11.1", "_strip_form_feeds"),
